@@ -88,3 +88,15 @@ Proof. reflexivity. Qed.
 Lemma syncer_sync_conds_ok : syncer_sync_conds =
   ["v3 == io.EOF"; "v3 != nil"; "v4 != v0.server.ClusterID()"; "v3 != nil"].
 Proof. reflexivity. Qed.
+
+Lemma kv_request_timeout_ns_ok : kv_request_timeout_ns =
+  (10000000000)%Z.
+Proof. reflexivity. Qed.
+
+Lemma skel_NewSlowLogTxn_ok : skel_NewSlowLogTxn =
+  [Call "Ctx"; Call "WithTimeout"; Call "Txn"; Ret].
+Proof. reflexivity. Qed.
+
+Lemma slowlogtxn_timeouts_ok : slowlogtxn_timeouts =
+  ["context.WithTimeout(v0.Ctx(), requestTimeout)"].
+Proof. reflexivity. Qed.
